@@ -26,7 +26,8 @@ Part A2 — round 2, Model/C06b.lean: identity_never_panics, signature_never_pan
          midx_open_never_panics (Model/C06m.lean)
 Part A3 — round 3, Model/C06e.lean: quote_undo_never_panics, config_int_never_panics,
          date_raw_never_panics, reflog_line_sites_never_panic;
-         Model/C06f.lean: refspec_fetch_parse_never_panics, url_classification_sites_never_panic
+         Model/C06f.lean: refspec_fetch_parse_never_panics, url_classification_sites_never_panic,
+         packed_record_start_never_panics (Lean only)
 Part C — proved HERE over other properties' models that DO have panic outcomes: index_never_panics
          (C24's State::from_bytes, all thread limits), commit_graph_open_never_panics (C14's File::new)
 Part B — re-exports, under uniform names, of the panic-freedom theorems other properties prove
@@ -219,6 +220,17 @@ theorem refspec_fetch_parse_never_panics (spec : Bytes) : refspecFetch spec ≠ 
 bytes. What the `url` crate and the code behind it do is not modelled (correspondence only). -/
 theorem url_classification_sites_never_panic (input : Bytes) : urlSites input ≠ .panic ∧ urlSites input ≠ .hang :=
   urlSites_total input
+
+/-- packed-refs lookup (`Buffer::binary_search_by`): the closure `search_start_of_record(ofs)` and the
+slice `&a[start..]` taken from its result — `a[..ofs]`, `a[..pos]`, `&a[start..]` — are in range for
+every offset `ofs ≤ a.len()`, which is all `core`'s binary search produces (probe positions are
+`< len`, the final `Ok`/`Err` positions `≤ len`). The record parser behind it is winnow-only. -/
+theorem packed_record_start_never_panics (a : Bytes) (ofs : Nat) (h : ofs ≤ a.length) :
+    recordStart a ofs ≠ .panic ∧ recordStart a ofs ≠ .hang :=
+  recordStart_total a ofs h
+
+-- non-vacuity: a peeled line is skipped back to the record it belongs to
+example : recordStart [97, 10, 98, 10, 94, 99, 10] 5 = .ok 2 := by decide +kernel
 
 /-! ## Part B: re-exports of other properties' panic-freedom theorems -/
 
